@@ -192,8 +192,14 @@ where
     where
         A: BDDKeyInfos,
     {
+        // Only run (and paid for) when the key set carries a GLWE switching key.
+        let ks_glwe: usize = match infos.ks_glwe_infos() {
+            Some(ks) => self.glwe_switching_key_encrypt_sk_tmp_bytes(&ks),
+            None => 0,
+        };
         self.circuit_bootstrapping_key_encrypt_sk_tmp_bytes(&infos.cbt_infos())
             .max(self.glwe_to_lwe_key_encrypt_sk_tmp_bytes(&infos.ks_lwe_infos()))
+            .max(ks_glwe)
     }
 
     #[allow(clippy::too_many_arguments)]
